@@ -36,6 +36,7 @@ func runC01(c *Ctx) {
 	// imported: a correct node keeps its lock (C03) and a commit certificate is a verified +2/3 for one block id (C02)
 	lockRules(c)
 	verifyCommitRules(c)
+	voteAdmissionRules(c)
 
 	// ---- block sync -----------------------------------------------------------------------------
 	if fn := c.Fn("blockchain", "pcState", "handle"); fn != nil {
